@@ -19,9 +19,7 @@ def _isnan(v):
          quick=[dict(n=2, size=2, dim=0), dict(n=3, size=2, dim=0), dict(n=3, size=2, dim=2),
                 dict(n=3, size=3, dim=0, _shards=3), dict(n=1, size=2, dim=0)],
          thorough=[dict(n=2, size=2, dim=0), dict(n=3, size=2, dim=2), dict(n=4, size=2, dim=0, _shards=4),
-                   dict(n=3, size=3, dim=2, _shards=3), dict(n=4, size=3, dim=0, _shards=9),
-                   dict(n=4, size=2, dim=2, _shards=4), dict(n=5, size=2, dim=0, _shards=8),
-                   dict(n=1, size=3, dim=0), dict(n=4, size=4, dim=0, _shards=16)],
+                   dict(n=3, size=3, dim=2, _shards=3), dict(n=4, size=2, dim=2, _shards=4), dict(n=1, size=3, dim=0)],
          covers=['empty_rank', 'single_sample_rank', 'all_on_one_rank', 'spread'],
          functions=FUNCS, shard_depth=3,
          stubs=['mpi4py -> sequential communicator double; every exchanged value re-created '
@@ -83,8 +81,7 @@ def online_variance(ctx, n, size, dim):
 
 @harness('C18', 'derived_trace',
          quick=[dict(n=3, size=2, ties=False, _shards=4), dict(n=2, size=2, ties=True), dict(n=2, size=3, ties=False)],
-         thorough=[dict(n=4, size=2, ties=False, _shards=16), dict(n=3, size=3, ties=False, _shards=8), dict(n=3, size=2, ties=True, _shards=8),
-                   dict(n=4, size=3, ties=False, _shards=16)],
+         thorough=[dict(n=4, size=2, ties=False, _shards=16), dict(n=3, size=3, ties=False, _shards=8), dict(n=3, size=2, ties=True, _shards=8)],
          functions=FUNCS + ['taurex.optimizer.optimizer:Optimizer.compute_derived_trace', 'taurex.util.util:quantile_corner'],
          stubs=['mpi4py -> sequential serialising communicator double', 'nestle result -> symbolic samples/weights',
                 'np.interp -> numpy-exact contract model'], shard_depth=4, max_paths=80000,
@@ -154,7 +151,7 @@ def _squared(ctx, v):
 
 @harness('C18', 'profile_errors',
          quick=[dict(n=2, size=2), dict(n=2, size=3, _shards=2)],
-         thorough=[dict(n=3, size=2, _shards=16), dict(n=2, size=4, _shards=4), dict(n=3, size=3, _shards=16)],
+         thorough=[dict(n=3, size=2, _shards=16), dict(n=2, size=4, _shards=4)],
          functions=FUNCS + ['taurex.optimizer.optimizer:Optimizer.generate_profiles', 'taurex.model.simplemodel:SimpleForwardModel.compute_error',
                             'taurex.optimizer.optimizer:Optimizer.sample_parameters'],
          stubs=['mpi4py -> sequential serialising communicator double', 'Optimizer.sample_parameters -> every sample with its weight (random subset / +1e-300 not the subject)',
